@@ -14,6 +14,7 @@ import Circomspect.Model.Propagate
 import Circomspect.Model.SignalAssign
 import Circomspect.Model.Includes
 import Circomspect.Model.Taint
+import Circomspect.Model.CfgReach
 import Circomspect.Lemmas.PathValues
 import Circomspect.Lemmas.PathDegrees
 import Circomspect.Model.SsaBuild
@@ -828,6 +829,34 @@ def taintCmd (args : List String) : String :=
     s!"wf={if Taint.consWfB facts then 1 else 0} edges={showPairs (Taint.edges facts)} cons={showPairs (Taint.consEdges facts)} sinks={sinks} claims={if claims.isEmpty then "-" else ",".intercalate claims}"
   | _ => "bad-op"
 
+/-- `regions <n> <a>b,…|-> <h:t:f,…|->` (f may be `-`): the blocks of the true and of the false side of every if statement
+    (`get_true_branch`, `get_false_branch`), from the edges of the CFG alone: reachability by `CfgReach`, the dominance
+    frontier by `Dominators` -/
+def regionsCmd (args : List String) : String :=
+  match args with
+  | [ns, es, bs] =>
+    match ns.toNat? with
+    | none => "bad-op"
+    | some n =>
+      let edges : List (Nat × Nat) := if es == "-" then [] else (es.splitOn ",").filterMap (fun t => match t.splitOn ">" with
+        | [a, b] => (match a.toNat?, b.toNat? with | some a, some b => some (a, b) | _, _ => none)
+        | _ => none)
+      let g : Graph.Graph := { n := n, pred := fun i => (edges.filter (fun e => e.2 == i)).map (·.1) }
+      match Dominators.computeDominators g with
+      | none => "no-fixpoint"
+      | some D =>
+        let idom := Dominators.idoms g D
+        let df : Nat → List Nat := fun x => (List.range n).filter (fun j => Dominators.inFrontier g idom x j)
+        let sorted (l : List Nat) : List Nat := (List.range n).filter (fun i => l.contains i)
+        let one (t : String) : String := match t.splitOn ":" with
+          | [h, tb, fb] =>
+            (match tb.toNat? with
+             | none => "bad-branch"
+             | some tb => s!"{h}:T={showCsv (sorted (CfgReach.trueBranch edges df tb))}:F={showCsv (sorted (CfgReach.falseBranch edges df tb fb.toNat?))}")
+          | _ => "bad-branch"
+        if bs == "-" then "-" else " ".intercalate ((bs.splitOn ",").map one)
+  | _ => "bad-op"
+
 def showIStmt : CfgLift.IStmt → String
   | .simple l => s!"s{l.1}-{l.2}"
   | .branch l t f => s!"i{l.1}-{l.2}:{t}:{match f with | some f => toString f | none => "-"}"
@@ -902,6 +931,7 @@ def handle (line : String) : String :=
   | "sigassign" :: args => sigassignCmd args
   | "includes" :: args => includesCmd args
   | "taint" :: args => taintCmd args
+  | "regions" :: args => regionsCmd args
   | "dom" :: args => domCmd false args
   | "strip" :: args => stripCmd false args
   | "stripspec" :: args => stripCmd true args
